@@ -668,6 +668,12 @@ func init() {
 			for _, sc := range []string{"ok", "refused", "garbled", "echo", "secret-request-fails split", "secret-request-fails", "secret-request-ok split"} {
 				jobs = append(jobs, &job{level: l, scenario: sc, pw: g.secret(), phrase: g.secret()})
 			}
+			// legal passwords of unusual shape: blanks at the ends, a leading '=' or '-', quotes
+			for k, shape := range []string{" %s", "%s ", "\t%s", "=%s", "-%s", "\"%s\"", "%s\n"} {
+				if (k+l)%3 == 0 || thorough {
+					jobs = append(jobs, &job{level: l, scenario: "ok", pw: fmt.Sprintf(shape, g.secret()), phrase: g.secret()})
+				}
+			}
 		}
 		var wg sync.WaitGroup
 		sem := make(chan struct{}, 12)
